@@ -1,4 +1,5 @@
 import LyModel.Text.XmlLemmas
+import LyModel.Text.JsonLemmas
 /-!
 # C01 — print → parse identity: property theorems (value text level, XML)
 
@@ -28,6 +29,15 @@ theorem xml_content_roundtrip (s rest : Bytes) (hs : YangText s) :
 theorem xml_attr_roundtrip (s rest : Bytes) (hs : YangText s) :
     XmlText.parse 34 (dumpText true s ++ 34 :: rest) = .ok (s, s.all isXmlWs, 34 :: rest) :=
   xml_text_roundtrip true 34 (Or.inr ⟨rfl, rfl⟩) s rest hs (by simp [sCdata, stripPrefix])
+
+/-- JSON: `lyjson_string`, started after the opening quote of what `json_print_string` wrote, returns the string and
+    stops after the closing quote — for every `YangText` string (control characters travel as `\t`, `\r`, `\u000A`,
+    `\u007F`). -/
+theorem json_string_roundtrip (s rest : Bytes) (hs : YangText s) :
+    JsonText.parse ((JsonText.printString s).tail ++ rest) = .ok (s, rest) := by
+  have := JsonText.parseString_print hs rest (((JsonText.printString s).tail ++ rest).length + 1)
+    (by simp [JsonText.printString, List.length_append])
+  simpa [JsonText.parse, JsonText.printString] using this
 
 /-- non-vacuity: a string with markup, quotes, a control character and 2-, 3- and 4-byte characters is `YangText` -/
 example : YangText [97, 60, 38, 62, 34, 39, 9, 0xC3, 0xA9, 0xE2, 0x82, 0xAC, 0xF0, 0x9F, 0x98, 0x80] :=
